@@ -980,6 +980,9 @@ where
             if data_arc.len() < cursor + buffer_size {
                 return Err(MqttError::MalformedPacket);
             }
+            if data_arc[cursor..cursor + buffer_size].iter().all(|&b| b == 0) {
+                return Err(MqttError::MalformedPacket);
+            }
             let mut buf = PacketIdType::Buffer::default();
             buf.as_mut()
                 .copy_from_slice(&data_arc[cursor..cursor + buffer_size]);
